@@ -158,7 +158,7 @@ class ReachingDefs:
                 self.global_names.update(n.ast.names)
             if n.kind == "stmt" and isinstance(n.ast, ast.Nonlocal):
                 self.nonlocal_names.update(n.ast.names)
-        self.local_names: Set[str] = {d.name for d in self.all_defs}
+        self.local_names: Set[str] = {d.name for d in self.all_defs if d.kind != "mutate"}
         self._idx = {id(d): i for i, d in enumerate(self.all_defs)}
         by_name: Dict[str, int] = {}
         for i, d in enumerate(self.all_defs):
